@@ -327,7 +327,9 @@ def applies(u, v, T):
         ia, ib = (a["query"].split("&") if a["query"] else []), b["query"].split("&")
         # reading: '&amp;' is normalize_url's documented spelling of '&': an insertion in front of an
         # item starting with 'amp;' would re-read that item, it is not an insertion of an item
-        if any(x.lower().startswith(("amp;", "amp%3b")) for x in ib):
+        from urllib.parse import unquote
+
+        if any(unquote(x).lower().startswith("amp;") for x in ib):
             return False
         # an empty query string '?' has one empty item: inserting next to it keeps it
         if a["query"] == "" and locate(u)["query"] is not None:
